@@ -32,8 +32,9 @@ type Case struct {
 
 func Spec() *mon.Spec {
 	return &mon.Spec{
-		ID:    "C15",
-		Level: "exploration",
+		ID:      "C15",
+		RuleAdd: "Later additions (rounds 4-17): slow handlers against a short write timeout; a bystander connection holding a partial frame; a 650 ms pause inside a request; a checking assembler wrapper; handlers that look at their context; refused and largest requests inside streams; transports that report bytes together with a deadline error; a busy handler (plain errors, one shared unaddressed typed error); transaction ids equal to the checksum of the frame before; a 700+ byte stream in one write; a handler that reuses one reply buffer; thorough tier: a request dribbling in over 27 s.",
+		Level:   "exploration",
 		Rule: "layer A (exact): (*ModbusTCPAssembler).ReceiveRead is fed the concatenation of 1..k library-built request frames cut by a segmentation; the handler is the simulated device. all = ALL 2^(n-1) segmentations of every single request with n<=15 bytes (FC1-6 12 bytes, FC15/16 minimal, FC17 8 bytes); cuts2 = all single and double cuts of longer requests and of streams of 2-3 requests (cuts inside and exactly between frames, i.e. next request sent early); random = PRNG segmentations of streams of up to 6 requests of all ten functions. " +
 			"Oracle per feed i: cumulative output is a prefix of the reply stream obtained by feeding each request whole to a fresh assembler (which must equal the device's reference replies); it never exceeds the replies of the requests complete after feed i (nothing sent early); for segmentations where no segment spans a frame boundary (lock-step) it equals them exactly; at the end it equals the whole reply stream. " +
 			"layer B (end-to-end, -race): server.Server.Serve on an in-memory listener with net.Pipe connections (one client write of <=300 bytes is exactly one server read): lock-step clients must receive each complete reply after its completing write; total bytes received must equal the expected stream (surplus = premature output). distinct key=(layer, functions, segmentation hash).",
